@@ -2,7 +2,7 @@ SPECIFICATION Spec
 CONSTANTS
   Mode = "race"
   MaxG = 3
-  MaxFr = 2
+  MaxFr = 1
   Big = FALSE
 INVARIANTS
   Fidelity
